@@ -43,19 +43,28 @@ Theorem C19_port_text_reads_back : forall z, int_of_text T (text_of_Z z) = Some 
 Proof. exact (int_of_text_canon T C19_tables_ok). Qed.
 Print Assumptions C19_port_text_reads_back.
 
-(* == is equality of protocol, object (tag sets as sets) and location; unequal locations never compare equal. *)
-Theorem C19_eq_is_state_equality : forall u v, uri_eqb u v = true <-> uri_eq u v.
-Proof. exact uri_eqb_spec. Qed.
+(* What __eq__ compares and what __hash__ hashes, as extracted from the source on this run (GenUri): both are the
+   plain state tuple — no extra branch, no normalised field —, == looks at every field (EF covers the state) and
+   the hash covers no field that == ignores.  A change of either method that breaks this breaks this obligation. *)
+Theorem C19_eq_hash_structure :
+  eq_exact = true /\ hash_exact = true /\ ne_is_not_eq = true /\ covers EF = true /\ fields_incl HF EF = true.
+Proof. vm_compute. repeat split; reflexivity. Qed.
+Print Assumptions C19_eq_hash_structure.
+
+(* == (over the extracted fields) is equality of protocol, object (tag sets as sets) and location; unequal locations
+   never compare equal. *)
+Theorem C19_eq_is_state_equality : forall u v, uri_eqb_on EF u v = true <-> uri_eq u v.
+Proof. exact (uri_eqb_on_spec EF (proj1 (proj2 (proj2 (proj2 C19_eq_hash_structure))))). Qed.
 Print Assumptions C19_eq_is_state_equality.
 
-Theorem C19_neq_location : forall u v, u_loc u <> u_loc v -> uri_eqb u v = false.
-Proof. exact neq_location. Qed.
+Theorem C19_neq_location : forall u v, u_loc u <> u_loc v -> uri_eqb_on EF u v = false.
+Proof. exact (neq_location_on EF (proj1 (proj2 (proj2 (proj2 C19_eq_hash_structure))))). Qed.
 Print Assumptions C19_neq_location.
 
-(* Equal URIs have equal hashes and hashing never fails (for any hash function of strings). *)
-Theorem C19_eq_hash : forall h u v, uri_eq u v ->
-  hash_key quirks_none h u = hash_key quirks_none h v /\ hash_key quirks_none h u <> None.
-Proof. exact eq_hash. Qed.
+(* URIs that compare equal have equal hashes and hashing never fails (for any hash function of strings). *)
+Theorem C19_eq_hash : forall h u v, uri_eqb_on EF u v = true ->
+  hash_key_on quirks_none h HF u = hash_key_on quirks_none h HF v /\ hash_key_on quirks_none h HF u <> None.
+Proof. exact (eq_hash_on EF HF (proj2 (proj2 (proj2 (proj2 C19_eq_hash_structure))))). Qed.
 Print Assumptions C19_eq_hash.
 
 (* ---- the deviations: each witness is replayed on the implementation by the harness ---- *)
@@ -71,7 +80,7 @@ Print Assumptions C19_empty_host_refuted.
 (* repaired by fixes/C19_meta_hash.diff: hashing the state tuple of a PYROMETA uri raised TypeError *)
 Theorem C19_meta_unhashable_refuted : exists s u,
   parse 9090 s = Some u /\ regular u /\
-  hash_key {| q_empty_host := false; q_meta_unhashable := true |} (fun _ => 0%N) u = None.
+  hash_key_on {| q_empty_host := false; q_meta_unhashable := true |} (fun _ => 0%N) HF u = None.
 Proof.
   exists [80;89;82;79;77;69;84;65;58;97;44;98]%N, {| u_proto := PYROMETA; u_obj := OTags [[97];[98]]%N; u_loc := LNone |}.
   split; [vm_compute; reflexivity|]. split; [|reflexivity]. split; [exact I|]. split; [discriminate|].
